@@ -371,6 +371,69 @@ func oracle(sc scenario, res *runResult) (key, msg string) {
 	return k, m
 }
 
+// isIdent: a byte of an attribute name as the old-ClassAd wire line writes it
+func isIdent(b byte) bool {
+	return b == '_' || b == '.' || b >= '0' && b <= '9' || b >= 'a' && b <= 'z' || b >= 'A' && b <= 'Z' || b >= 0x80
+}
+
+// withheldLine looks, in the PLAINTEXT of every frame written (sealed or not), for a serialised
+// attribute line "NAME = ..." whose NAME the statement says must be withheld under this scenario's
+// options and peer - whether or not the generator put such an attribute into the ad, and however
+// the code came to select it (whitelist, expansion, ...).  " = " with a blank on either side only
+// occurs as the name/value separator: every ClassAd operator containing '=' is rendered as
+// "==", "=?=", "=!=", "<=", ">=", "!=".
+func withheldLine(sc scenario, frames []tframe) (name string, found bool) {
+	for _, f := range frames {
+		d := f.Data
+		for i := 0; i+3 <= len(d); i++ {
+			if d[i] != ' ' || d[i+1] != '=' || d[i+2] != ' ' {
+				continue
+			}
+			j := i
+			for j > 0 && isIdent(d[j-1]) {
+				j--
+			}
+			if j == i {
+				continue
+			}
+			if n := string(d[j:i]); mustWithhold(sc, n) {
+				return n, true
+			}
+		}
+	}
+	return "", false
+}
+
+// publicTextCover marks the bytes of the (lower-cased) connection bytes that are the rendered
+// EXPRESSION TEXT - the part after "name = " - of an attribute the ad really has and the statement
+// lets through.  Only a private NAME lying wholly inside such a text is the known finding
+// name-in-public-expression; a name anywhere else (an attribute name, a value, a type name) is not.
+func publicTextCover(sc scenario, res *runResult, lw []byte) []bool {
+	cov := make([]bool, len(lw))
+	for i, n := range res.Rend.Names {
+		if mustWithhold(sc, n) {
+			continue
+		}
+		head := []byte(asciiLower(n + " = "))
+		pat := append(append([]byte(nil), head...), []byte(asciiLower(res.Rend.Texts[i]))...)
+		if len(pat) == len(head) {
+			continue
+		}
+		for from := 0; ; {
+			k := bytes.Index(lw[from:], pat)
+			if k < 0 {
+				break
+			}
+			k += from
+			for x := k + len(head); x < k+len(pat); x++ {
+				cov[x] = true
+			}
+			from = k + 1
+		}
+	}
+	return cov
+}
+
 // secrecy: the canary part of the oracle (what may not be on the wire)
 func secrecy(sc scenario, res *runResult) (key, msg string) {
 	clearWire := res.Wire // every byte that reached the connection
@@ -380,26 +443,25 @@ func secrecy(sc scenario, res *runResult) (key, msg string) {
 			key, msg = "name-in-public-expression", nameInPublic
 		}
 	}()
-	for i, a := range sc.Attrs {
-		_ = i
+	// hard clause, structural: no serialised attribute line carries a name that must be withheld
+	if n, bad := withheldLine(sc, res.Frames); bad {
+		return "private-attr-line", fmt.Sprintf("an attribute line \"%s = ...\" was serialised although the statement withholds that name (options %d, whitelist %v, peer %v)", n, sc.Opts, sc.WL, sc.Peer)
+	}
+	lw := []byte(asciiLower(string(clearWire)))
+	var cover []bool
+	for _, a := range sc.Attrs {
 		canary := a.Val
 		if a.Kind == "expr" || a.Kind == "bool" || len(canary) < 8 {
 			canary = ""
 		}
-		if mustWithhold(sc, a.Name) {
-			if containsFold(clearWire, a.Name) {
-				// is it only there because a PUBLIC attribute's own expression text mentions it?
-				stripped := []byte(asciiLower(string(clearWire)))
-				for i, n := range res.Rend.Names {
-					if !mustWithhold(sc, n) {
-						stripped = bytes.ReplaceAll(stripped, []byte(asciiLower(n+" = "+res.Rend.Texts[i])), []byte("#"))
-					}
-				}
-				if bytes.Contains(stripped, []byte(asciiLower(a.Name))) {
-					return "name-on-wire", fmt.Sprintf("name of withheld private attribute %q occurs in the emitted bytes", a.Name)
-				}
-				nameInPublic = fmt.Sprintf("the name of withheld private attribute %q occurs in the emitted bytes, inside the rendered expression of a public attribute that refers to it", a.Name)
+		if a.Kind == "expr" {
+			// a private attribute given as an expression: its string literals of 8+ bytes are canaries too
+			if q := exprCanary(a.Val); q != "" && specPrivate(a.Name) {
+				canary = q
 			}
+		}
+		if mustWithhold(sc, a.Name) {
+			// the hard clause first: the VALUE occurs in no byte written, sealed or not
 			if canary != "" && bytes.Contains(clearWire, []byte(canary)) {
 				return "value-on-wire", fmt.Sprintf("value of withheld private attribute %q occurs in the emitted bytes", a.Name)
 			}
@@ -412,6 +474,24 @@ func secrecy(sc scenario, res *runResult) (key, msg string) {
 				if _, ok := res.Got.Lookup(a.Name); ok {
 					return "withheld-received", fmt.Sprintf("peer received withheld private attribute %q", a.Name)
 				}
+			}
+			ln := []byte(asciiLower(a.Name))
+			for from := 0; ; {
+				k := bytes.Index(lw[from:], ln)
+				if k < 0 {
+					break
+				}
+				k += from
+				if cover == nil {
+					cover = publicTextCover(sc, res, lw)
+				}
+				for x := k; x < k+len(ln); x++ {
+					if !cover[x] {
+						return "name-on-wire", fmt.Sprintf("name of withheld private attribute %q occurs in the emitted bytes (offset %d), outside the expression text of any public attribute of the ad", a.Name, k)
+					}
+				}
+				nameInPublic = fmt.Sprintf("the name of withheld private attribute %q occurs in the emitted bytes, inside the rendered expression of a public attribute that refers to it", a.Name)
+				from = k + 1
 			}
 			continue
 		}
@@ -434,6 +514,24 @@ func secrecy(sc scenario, res *runResult) (key, msg string) {
 		}
 	}
 	return "", ""
+}
+
+// exprCanary: the first string literal of at least 8 bytes in an expression text
+func exprCanary(e string) string {
+	for i := 0; i < len(e); i++ {
+		if e[i] != '"' {
+			continue
+		}
+		j := strings.IndexByte(e[i+1:], '"')
+		if j < 0 {
+			return ""
+		}
+		if j >= 8 && !strings.ContainsAny(e[i+1:i+1+j], "\\") {
+			return e[i+1 : i+1+j]
+		}
+		i += j + 1
+	}
+	return ""
 }
 
 // reassembly: what the peer must reconstruct
@@ -482,7 +580,7 @@ func reassembly(sc scenario, res *runResult) (key, msg string) {
 // rebuilt from an exported crypto state (send counter at / near its maximum)
 
 type seqStep struct {
-	Pre   string     `json:"pre"` // "", "setkey", "crypto-on", "crypto-off", "newmsg"
+	Pre   string     `json:"pre"` // "", "setkey", "crypto-on", "crypto-off", "newmsg", or several joined by "+"
 	Opts  int        `json:"opts"`
 	Attrs []attrSpec `json:"attrs"`
 }
@@ -511,9 +609,22 @@ func cryptoBlob(ectr, dctr uint32) []byte {
 	return b.Bytes()
 }
 
-// runSeq executes the sequence on the real code and applies the oracle to every ad
+// seqTrace: what the model is compared with (every frame written by the history, the ads as rendered)
+type seqTrace struct {
+	Frames   []tframe
+	Rends    []rendered
+	Complete bool // every step was sent
+}
+
 func runSeq(q seqScenario) (key, msg string, stats map[string]int) {
+	key, msg, stats, _ = runSeqTrace(q)
+	return
+}
+
+// runSeqTrace executes the sequence on the real code and applies the oracle to every ad
+func runSeqTrace(q seqScenario) (key, msg string, stats map[string]int, tr *seqTrace) {
 	stats = map[string]int{}
+	tr = &seqTrace{}
 	conn := &memConn{}
 	var s *stream.Stream
 	hasKey, enc := false, false
@@ -522,7 +633,7 @@ func runSeq(q seqScenario) (key, msg string, stats map[string]int) {
 		var err error
 		s, err = stream.NewStreamWithCryptoState(conn, cryptoBlob(q.Ectr, 5))
 		if err != nil {
-			return "blob-rejected", fmt.Sprintf("NewStreamWithCryptoState: %v", err), stats
+			return "blob-rejected", fmt.Sprintf("NewStreamWithCryptoState: %v", err), stats, tr
 		}
 		s.SetCryptoMode(false)
 		hasKey, enc = true, false
@@ -544,26 +655,34 @@ func runSeq(q seqScenario) (key, msg string, stats map[string]int) {
 		end int
 	}
 	var sents []sent
+	firstK, firstM := "", ""
 	for _, st := range q.Steps {
-		switch st.Pre {
-		case "setkey":
-			if err := s.SetSymmetricKey(sessionKey); err != nil {
-				return "setkey", err.Error(), stats
+		for _, pre := range strings.Split(st.Pre, "+") {
+			switch pre {
+			case "setkey":
+				if err := s.SetSymmetricKey(sessionKey); err != nil {
+					return "setkey", err.Error(), stats, tr
+				}
+				hasKey, enc = true, true
+			case "crypto-on":
+				if s.SetCryptoMode(true) {
+					enc = true
+				}
+			case "crypto-off":
+				s.SetCryptoMode(false)
+				enc = false
+			case "newmsg":
+				m = message.NewMessageForStream(rs)
 			}
-			hasKey, enc = true, true
-		case "crypto-on":
-			if s.SetCryptoMode(true) {
-				enc = true
-			}
-		case "crypto-off":
-			s.SetCryptoMode(false)
-			enc = false
-		case "newmsg":
-			m = message.NewMessageForStream(rs)
 		}
 		ad, err := buildAd(st.Attrs)
 		if err != nil {
-			return "gen", err.Error(), stats
+			return "gen", err.Error(), stats, tr
+		}
+		if rd, rerr := render(ad); rerr == nil {
+			tr.Rends = append(tr.Rends, rd)
+		} else {
+			return "gen", rerr.Error(), stats, tr
 		}
 		before := conn.wr.Len()
 		f0 := len(rs.frames)
@@ -589,16 +708,22 @@ func runSeq(q seqScenario) (key, msg string, stats map[string]int) {
 		if hasKey && !enc {
 			stats["seq-ad-keyed-not-encrypting"]++
 		}
-		if k, mm := secrecy(sc, res); k != "" {
-			return k, fmt.Sprintf("ad %d of a sequence (stream key=%v enc=%v at that point, options=%d, send error: %v): %s", len(sents), hasKey, enc, st.Opts, perr, mm), stats
+		if k, mm := secrecy(sc, res); k != "" && firstK == "" {
+			// remembered, the history is still run to its end so that the model sees all of it
+			firstK, firstM = k, fmt.Sprintf("ad %d of a sequence (stream key=%v enc=%v at that point, options=%d, send error: %v): %s", len(sents), hasKey, enc, st.Opts, perr, mm)
 		}
 		sents = append(sents, sent{sc, perr == nil, conn.wr.Len()})
+		tr.Frames = rs.frames
+		tr.Complete = perr == nil && len(sents) == len(q.Steps)
 		if perr != nil {
 			break // the message is in an undefined state after a refused send
 		}
 	}
+	if firstK != "" {
+		return firstK, firstM, stats, tr
+	}
 	if q.Init == "blob" {
-		return "", "", stats
+		return "", "", stats, tr
 	}
 	// peer: one receiving stream over everything that was written, same state changes
 	pc := &memConn{rd: bytes.NewReader(conn.wr.Bytes())}
@@ -615,13 +740,15 @@ func runSeq(q seqScenario) (key, msg string, stats map[string]int) {
 		if i >= len(sents) || !sents[i].ok {
 			break
 		}
-		switch st.Pre {
-		case "setkey":
-			_ = ps.SetSymmetricKey(sessionKey)
-		case "crypto-on":
-			ps.SetCryptoMode(true)
-		case "crypto-off":
-			ps.SetCryptoMode(false)
+		for _, pre := range strings.Split(st.Pre, "+") {
+			switch pre {
+			case "setkey":
+				_ = ps.SetSymmetricKey(sessionKey)
+			case "crypto-on":
+				ps.SetCryptoMode(true)
+			case "crypto-off":
+				ps.SetCryptoMode(false)
+			}
 		}
 		var got *classad.ClassAd
 		var gerr error
@@ -638,25 +765,25 @@ func runSeq(q seqScenario) (key, msg string, stats map[string]int) {
 			break
 		}
 		if gerr != nil {
-			return "seq-peer-error", fmt.Sprintf("ad %d of a sequence: peer GetClassAd failed: %v", i, gerr), stats
+			return "seq-peer-error", fmt.Sprintf("ad %d of a sequence: peer GetClassAd failed: %v", i, gerr), stats, tr
 		}
 		src, _ := buildAd(sc.Attrs)
 		for _, a := range sc.Attrs {
 			_, ok := got.Lookup(a.Name)
 			if mustWithhold(sc, a.Name) && ok {
-				return "withheld-received", fmt.Sprintf("ad %d of a sequence: peer received withheld %q", i, a.Name), stats
+				return "withheld-received", fmt.Sprintf("ad %d of a sequence: peer received withheld %q", i, a.Name), stats, tr
 			}
 			if mustDeliver(sc, a.Name) && !ok {
-				return "not-delivered", fmt.Sprintf("ad %d of a sequence: attribute %q not reconstructed", i, a.Name), stats
+				return "not-delivered", fmt.Sprintf("ad %d of a sequence: attribute %q not reconstructed", i, a.Name), stats, tr
 			}
 			if ok && mustDeliver(sc, a.Name) && a.Kind != "expr" && !strings.EqualFold(a.Name, "MyType") && !strings.EqualFold(a.Name, "TargetType") {
 				if w, g := src.EvaluateAttr(a.Name), got.EvaluateAttr(a.Name); w.Type() != g.Type() || w.String() != g.String() {
-					return "value-changed", fmt.Sprintf("ad %d of a sequence: %q reconstructed as %s, sent %s", i, a.Name, g.String(), w.String()), stats
+					return "value-changed", fmt.Sprintf("ad %d of a sequence: %q reconstructed as %s, sent %s", i, a.Name, g.String(), w.String()), stats, tr
 				}
 			}
 		}
 	}
-	return "", "", stats
+	return "", "", stats, tr
 }
 
 // ---------------------------------------------------------------------------
@@ -805,7 +932,7 @@ func wireNames() (priv, pub []string) {
 // ---------------------------------------------------------------------------
 
 func gen(c *core.Ctx) error {
-	c.Rule("(1) classad.IsPrivateAttributeV1/V2 on a catalogue of names (every fixed name and the prefix in lower/upper/alternating case and Unicode-fold look-alikes, near misses, invalid UTF-8, public names) against the model predicates; (2) the real filters (hook) for all 4 (excludePrivate, excludePrivateV2) x whitelist x EncryptedAttrs over the whole catalogue, and the full decision through PutClassAdWithOptions on a mock stream for all 64 option-bit sets x whitelist absent/empty/public-only/naming-private x peer nil/8.9.13/9.8.9/9.9.0/9.10.0/10.0.0; (3) the real serialiser on a real stream.Stream over an in-memory connection in the stream states no-key / keyed+encrypting / keyed-not-encrypting / flag-without-key: frames written (plaintext, sealed or clear as seen on the connection) against the model, canary search over every byte that reached the connection, peer reconstruction with GetClassAd and GetClassAdRaw. non-trivial = serialiser scenario in which the peer reconstructed the ad; distinct by scenario")
+	c.Rule("(1) classad.IsPrivateAttributeV1/V2 on a catalogue of names (every fixed name and the prefix in lower/upper/alternating case and Unicode-fold look-alikes, near misses, invalid UTF-8, public names) against the model predicates; (2) the real filters (hook) for all 4 (excludePrivate, excludePrivateV2) x whitelist x EncryptedAttrs over the whole catalogue, and the full decision through PutClassAdWithOptions on a mock stream for all 64 option-bit sets x whitelist absent/empty/public-only/naming-private x peer nil/8.9.13/9.8.9/9.9.0/9.10.0/10.0.0; (3) the real serialiser on a real stream.Stream over an in-memory connection in the stream states no-key / keyed+encrypting / keyed-not-encrypting / flag-without-key: frames written (plaintext, sealed or clear as seen on the connection) against the model, canary search over every byte that reached the connection, peer reconstruction with GetClassAd and GetClassAdRaw; (3c) projections: ads in which a whitelisted PUBLIC attribute's expression refers to a private attribute (stored spelling and other case spellings, reserved prefix, chains A->B->private, list literals, random templates) x whitelists naming those attributes x all 64 option sets incl. NoExpandWhitelist (filter hook, mock stream) and the bit combinations of NoPrivate/NoExpandWhitelist/IncludePrivate on real streams in all four states: only what the whitelist names and the privacy filter lets through is serialised; (4) histories through one Message (key installed / mode switched after the Message was created, between ads, fresh Messages) on the oracle and, frame by frame, on the sequence model. non-trivial = serialiser scenario in which the peer reconstructed the ad; distinct by scenario")
 	c.Assume("a sealed frame is AES-256-GCM ciphertext: its plaintext is not derivable from the bytes on the connection (ideal encryption, Lib/Sym.v)")
 	c.Assume("MyType/TargetType are sent as evaluated by the classad library; an ad whose MyType expression refers to a private attribute declassifies it (not generated)")
 
@@ -1036,7 +1163,7 @@ func gen(c *core.Ctx) error {
 			case 0:
 				as = append(as, attrSpec{n, "int", fmt.Sprintf("9%09d%d", c.Rng.Intn(1000000000), canaryN%10)})
 			case 1:
-				as = append(as, attrSpec{n, "expr", fmt.Sprintf(`strcat("kanarienvogel%d", "x")`, canaryN)})
+				as = append(as, attrSpec{n, "expr", fmt.Sprintf(`strcat("kanarienvogel%d.", "x")`, canaryN)})
 			default:
 				as = append(as, attrSpec{n, "str", fmt.Sprintf("<10.0.0.%d:9618>#%d#kanarie-%08x", canaryN%250, canaryN, c.Rng.Uint32())})
 			}
@@ -1124,6 +1251,10 @@ func gen(c *core.Ctx) error {
 		}
 		g.flush(c)
 	}
+	// 3c. whitelists naming public attributes whose expressions refer to private ones (refs.go)
+	if err := genRefs(c, states); err != nil {
+		return err
+	}
 	// 4. sequences through one Message, and streams rebuilt from exported crypto state
 	secretAd := func(i int) []attrSpec {
 		return []attrSpec{{"Name", "str", fmt.Sprintf("slot%d@host", i)}, {[]string{"ClaimId", "_condor_privK", "transferkey", "Capability"}[i%4], "str", fmt.Sprintf("kanarie-seq-%04d-%08x", i, c.Rng.Uint32())},
@@ -1142,8 +1273,19 @@ func gen(c *core.Ctx) error {
 	for _, n := range []int{1048560, 1048576, 1200000, 2300000} {
 		seqs = append(seqs, seqScenario{Kind: "seq", Init: "keyed-clear", Steps: []seqStep{{"", 32, []attrSpec{{"Name", "str", "big"}, {"ClaimId", "str", "kanarie-big-secret-" + strings.Repeat("s", n)}, {"Cpus", "int", "1"}}}}})
 	}
-	pres := []string{"", "setkey", "crypto-on", "crypto-off", "newmsg"}
+	pres := []string{"", "setkey", "crypto-on", "crypto-off", "newmsg", "setkey+crypto-off", "crypto-off+newmsg", "newmsg+crypto-off", "crypto-on+crypto-off", "crypto-off+crypto-on"}
 	for _, init := range []string{"plain", "keyed-enc", "keyed-clear"} {
+		// the Message exists BEFORE the key is installed / before the mode changes, and only then the
+		// first ad with a secret is written through it (runSeq allocates the Message on the initial stream)
+		for _, opts := range []int{32, 36, 0, 34} {
+			seqs = append(seqs,
+				seqScenario{Kind: "seq", Init: init, Steps: []seqStep{{"setkey+crypto-off", opts, secretAd(30 + opts)}}},
+				seqScenario{Kind: "seq", Init: init, Steps: []seqStep{{"crypto-off", opts, secretAd(31 + opts)}, {"", opts, secretAd(32 + opts)}}},
+				seqScenario{Kind: "seq", Init: init, Steps: []seqStep{{"setkey+crypto-off+crypto-on+crypto-off", opts, secretAd(33 + opts)}, {"setkey", opts, secretAd(34 + opts)}, {"crypto-off", opts, secretAd(35 + opts)}}})
+		}
+		seqs = append(seqs,
+			seqScenario{Kind: "seq", Init: init, Steps: []seqStep{{"setkey", 32, secretAd(40)}, {"crypto-off+newmsg", 32, secretAd(41)}, {"crypto-on+newmsg+crypto-off", 32, secretAd(42)}}},
+			seqScenario{Kind: "seq", Init: init, Steps: []seqStep{{"crypto-on", 32, secretAd(43)}, {"setkey+crypto-off", 32, secretAd(44)}, {"crypto-on", 32, secretAd(45)}, {"crypto-off", 32, secretAd(46)}}})
 		// the shapes named by the property: settle the state after the first ad
 		seqs = append(seqs,
 			seqScenario{Kind: "seq", Init: init, Steps: []seqStep{{"", 32, secretAd(10)}, {"crypto-off", 32, secretAd(11)}, {"crypto-on", 32, secretAd(12)}, {"crypto-off", 0, secretAd(13)}}},
@@ -1168,9 +1310,14 @@ func gen(c *core.Ctx) error {
 	}
 	for _, q := range seqs {
 		c.OracleCheck()
-		k, mm, st := runSeq(q)
+		k, mm, st, tr := runSeqTrace(q)
 		for n, v := range st {
 			c.CountN(n, v)
+		}
+		// the same history on the model (Model/PrivacySeq.v): every frame written, in order
+		if q.Init != "blob" && tr != nil && tr.Complete && len(tr.Rends) == len(q.Steps) && seqSmall(q) {
+			c.AddCaseW(seqTerm(q, tr), q, 5+len(tr.Frames))
+			c.Count("seq-on-model")
 		}
 		if k != "" {
 			c.OracleFail(k, mm, q)
@@ -1184,6 +1331,55 @@ func gen(c *core.Ctx) error {
 	c.Sample(map[string]interface{}{"serialiser_scenarios": nsc, "catalogue_names": len(cat)})
 	c.Exhaustive(false)
 	return nil
+}
+
+// seqSmall: histories whose ads fit a Coq literal (the 1 MiB secrets stay oracle-only)
+func seqSmall(q seqScenario) bool {
+	for _, st := range q.Steps {
+		for _, a := range st.Attrs {
+			if len(a.Val) > 4000 {
+				return false
+			}
+		}
+	}
+	return true
+}
+
+// seqTerm: CSeq key enc ops frames
+func seqTerm(q seqScenario, tr *seqTrace) string {
+	key, enc := false, false
+	switch q.Init {
+	case "keyed-enc":
+		key, enc = true, true
+	case "keyed-clear":
+		key = true
+	}
+	var ops []string
+	for i, st := range q.Steps {
+		for _, pre := range strings.Split(st.Pre, "+") {
+			switch pre {
+			case "setkey":
+				ops = append(ops, "OSetKey")
+			case "crypto-on":
+				ops = append(ops, "OCryptoOn")
+			case "crypto-off":
+				ops = append(ops, "OCryptoOff")
+			case "newmsg":
+				ops = append(ops, "ONewMsg")
+			}
+		}
+		rd := tr.Rends[i]
+		var at []string
+		for j := range rd.Names {
+			at = append(at, core.Pair(bs(rd.Names[j]), bs(rd.Texts[j])))
+		}
+		ops = append(ops, fmt.Sprintf("OPutAd (mkcfg %d [] [] None) (mkad %s %s %s)", st.Opts, core.List(at), bs(rd.MyType), bs(rd.TargetTyp)))
+	}
+	var fr []string
+	for _, f := range tr.Frames {
+		fr = append(fr, fmt.Sprintf("(%s, %s, %s)", core.Bool(f.Sealed), core.Bool(f.EOM), dig(f.Data)))
+	}
+	return fmt.Sprintf("CSeq %s %s %s %s", core.Bool(key), core.Bool(enc), core.List(ops), core.List(fr))
 }
 
 func toBytes(l []string) [][]byte {
@@ -1208,6 +1404,8 @@ func dig(b []byte) string {
 	}
 	return fmt.Sprintf("(%d, %d, %s, %s)", len(b), sum%4294967296, core.Hex(first), core.Hex(last))
 }
+
+var knownReported int // reports of the listed finding name-in-public-expression so far
 
 // group collects the runs of one ad into cases of at most 40 runs
 type group struct {
@@ -1274,7 +1472,18 @@ func (g *group) add(c *core.Ctx, sc scenario, wi, ei int) error {
 		core.Bool(sc.Key), core.Bool(sc.Enc), sc.Opts, core.Nat(wi), core.Nat(ei), peerTerm(sc.Peer), core.List(fr), obs))
 	g.descs = append(g.descs, sc)
 	c.OracleCheck()
-	if k, msg := oracle(sc, res); k != "" {
+	k, msg := oracle(sc, res)
+	if k == "name-in-public-expression" {
+		// the listed finding: core keeps at most 200 failure records per run, so only the first few
+		// are reported with their input (the rest are counted) - they must never crowd out a real one
+		c.Count("known-finding-name-in-public-expression")
+		if knownReported >= 30 {
+			k = ""
+		} else {
+			knownReported++
+		}
+	}
+	if k != "" {
 		c.OracleFail(k, fmt.Sprintf("state key=%v enc=%v options=%d whitelist=%v peer=%v: %s", sc.Key, sc.Enc, sc.Opts, sc.WL, sc.Peer, msg), sc)
 	} else {
 		js, _ := json.Marshal(sc)
@@ -1324,6 +1533,20 @@ func replay(raw json.RawMessage) error {
 			return fmt.Errorf("%s: %s", k, mm)
 		}
 		return nil
+	}
+	if probe.Kind == "filter-ref" || probe.Kind == "filter-hook-ref" {
+		var d struct {
+			Attrs []attrSpec `json:"attrs"`
+			WL    []string   `json:"wl"`
+			Opts  int        `json:"opts"`
+			Peer  []int      `json:"peer"`
+			ExP   bool       `json:"exP"`
+			ExV2  bool       `json:"exV2"`
+		}
+		if err := json.Unmarshal(raw, &d); err != nil {
+			return err
+		}
+		return replayRef(probe.Kind, d.Attrs, d.WL, d.Opts, d.Peer, d.ExP, d.ExV2)
 	}
 	var sc scenario
 	if err := json.Unmarshal(raw, &sc); err != nil {
